@@ -106,20 +106,28 @@ class Generator:
         self.module('lib.rs', top=True)
         self.emit('\nfn main() {}\n')
         # call-site restrictions (@onlycaller): the named call may occur only in the function carrying the directive
+        # (several items may carry the directive with the same id: then the call may occur in exactly those functions)
+        groups = {}
         for addr, c in self.contracts.items():
             for (call_re, oid, tags) in c.callsites:
-                offenders = []
-                for f in self.fns:
-                    if not hasattr(f, '_seg_range') or f.addr == addr or '#canary' in f.addr:
-                        continue
-                    a0, b0 = f._seg_range
-                    srctext = ''.join(sg.text for sg in self.segs[a0:b0] if sg.origin == 'src')
-                    if re.search(call_re, srctext):
-                        offenders.append(f.addr)
-                here = next((f for f in self.fns if f.addr == addr), None)
-                self.syntactic.append(dict(oid=oid, tags=tags, addr=(offenders[0] if offenders else addr), ok=not offenders,
-                                           why=('/%s/ is also called from %s' % (call_re, ', '.join(offenders))) if offenders else '',
-                                           src_file=here.src_file if here else '', src_line=here.src_line if here else 0))
+                g_ = groups.setdefault(oid, dict(call_re=call_re, tags=tags, allowed=[]))
+                if g_['call_re'] != call_re:
+                    raise ContractError('@onlycaller %s: different regexes under one id' % oid)
+                g_['allowed'].append(addr)
+        for oid, g_ in groups.items():
+            call_re, tags, allowed = g_['call_re'], g_['tags'], g_['allowed']
+            offenders = []
+            for f in self.fns:
+                if not hasattr(f, '_seg_range') or f.addr in allowed or '#canary' in f.addr or '#callsig' in f.addr:
+                    continue
+                a0, b0 = f._seg_range
+                srctext = ''.join(sg.text for sg in self.segs[a0:b0] if sg.origin == 'src')
+                if re.search(call_re, srctext):
+                    offenders.append(f.addr)
+            here = next((f for f in self.fns if f.addr == allowed[0]), None)
+            self.syntactic.append(dict(oid=oid, tags=tags, addr=(offenders[0] if offenders else allowed[0]), ok=not offenders,
+                                       why=('/%s/ is also called from %s' % (call_re, ', '.join(offenders))) if offenders else '',
+                                       src_file=here.src_file if here else '', src_line=here.src_line if here else 0))
         unused = set(self.contracts) - self.used_contracts
         if unused:
             raise ToolCondition('lost anchor: contract(s) name items that no longer exist: %s' % sorted(unused))
@@ -459,6 +467,22 @@ impl Clone for %s {
             # external functions are only compiled: the type-level rules still apply so that they keep compiling
             head_and_body = self.r18_ghost_literals(self.r17_buffile(head_and_body))
         canary_on = getattr(self, 'canary', False) and c is not None and status == 'verify' and it.has_body
+        as_clone = bool(c and 'verify-as-clone' in c.attrs and status == 'verify' and it.has_body and not in_trait_impl)
+        if as_clone:
+            # The body is verified under the name NAME__verif_impl; callers see NAME itself as an external_body signature
+            # carrying the identical contract (same clause text).  Workaround for a Verus quirk, see DESIGN.md 13.10.
+            sig_segs = self.splice_fn(rel, addr + '#callsig', head_and_body, it, c, 'trusted', line_of(it.head_start))
+            sig_info = FnInfo(addr=addr + '#callsig', status='callsig', src_file=rel, src_line=line_of(it.head_start), tags=[], has_contract=True)
+            sig_info.bodytags = {}
+            sig_info.canary = False
+            self.emit('\n' + ''.join(a + '\n' for a in self.filter_attrs(it.attrs)) + '#[verifier::external_body]\n')
+            a_ = len(self.segs)
+            self.segs.extend(sig_segs)
+            sig_info._seg_range = (a_, len(self.segs))
+            sig_info.clause_ids = []
+            self.fns.append(sig_info)
+            head_and_body = re.sub(r'\bfn\s+%s\b' % re.escape(it.name), 'fn %s__verif_impl' % it.name, head_and_body, count=1)
+            self.rules.hit('verify-as-clone')
         segs = self.splice_fn(rel, addr, head_and_body, it, c, status, line_of(it.head_start),
                               canary_mode=('start' if (canary_on and in_trait_impl) else None))
         info = FnInfo(addr=addr, status=status, src_file=rel, src_line=line_of(it.head_start),
@@ -468,7 +492,7 @@ impl Clone for %s {
         info.src_sha = hashlib.sha256(re.sub(r'\s+', ' ', txt).encode()).hexdigest()[:16]
         pre = '\n' + ''.join(a + '\n' for a in attrs)
         if c:
-            pre += ''.join(a + '\n' for a in c.attrs)
+            pre += ''.join(a + '\n' for a in c.attrs if a.startswith('#'))
         if status == 'trusted' and it.has_body:
             pre += '#[verifier::external_body]\n'
         elif status == 'external' and not block_external:
@@ -513,7 +537,16 @@ impl Clone for %s {
         txt = self.r17_buffile(txt)
         txt = self.r18_ghost_literals(txt)
         txt = self.r19_zip_from(txt)
+        txt = self.r20_read_exact(txt)
         return txt
+
+    def r20_read_exact(self, txt):
+        # R20: `FILE.read_exact(&mut *BLOCK)` -> `vshim::read_exact_block(&mut FILE, &mut BLOCK)`: `Read::read_exact` is a provided
+        # trait method (no assumed contract can be attached) and `&mut *` on a Box<[u8; N]> trips a Verus internal error
+        def rep(m):
+            self.rules.hit('R20')
+            return 'crate::vshim::read_exact_block(&mut %s, &mut %s)' % (m.group(1), m.group(2))
+        return re.sub(r'\b([a-z_][a-z0-9_]*)\.read_exact\(\s*&mut \*([a-z_][a-z0-9_]*)\s*\)', rep, txt)
 
     def r19_zip_from(self, txt):
         # R19: `(START..).zip(ITER)` -> `vshim::zip_from(START, ITER)`: vstd has no contract for Iterator::zip / RangeFrom
@@ -804,6 +837,14 @@ impl Clone for %s {
                 spec_segs.append(Seg('\n', 'gen'))
         for sg in spec_segs:
             inserts.append((sig_end, sg, sig_end))
+        if c and body_tok is not None and status != 'verify':
+            # structural obligations (@contains) also apply to functions that are only compiled (trusted / external)
+            bc_ = match_close(toks, body_tok)
+            body_txt = re.sub(r'//[^\n]*', '', txt[toks[body_tok].end:toks[bc_].start])
+            for (b_re, oid, tags) in c.contains:
+                ok = bool(re.search(b_re, body_txt))
+                self.syntactic.append(dict(oid=oid, tags=tags, addr=addr, ok=ok, why=('' if ok else '/%s/ no longer occurs in the function' % b_re),
+                                           src_file=rel, src_line=src_line))
         if c and body_tok is not None and status == 'verify':
             body_close = match_close(toks, body_tok)
             b_lo, b_hi = toks[body_tok].end, toks[body_close].start
